@@ -348,8 +348,6 @@ class ProvRDFSerializer(Serializer):
                                                 )
                                             )
                                         has_qualifiers = False
-                            if rec_type in [PROV_ALTERNATE]:
-                                continue
                             if subj and (has_qualifiers or identifier):
                                 qualifier = rec_type._localpart
                                 rec_uri = rec_type.uri
